@@ -138,6 +138,21 @@ theorem station_accepts_forwarded_full_refuted : ¬ station_accepts_forwarded_fu
   rw [hrej] at hst
   cases hst
 
+/-- the full statement under exactly the excluded condition: the station's transport also accepts the
+parameters the registrar attached, whenever the station applies them -/
+theorem station_accepts_forwarded_partial (cfg : Cfg) (req : Req) (ext : Ext) (m : Nat) (a : Option String) (c : Resp) (f : Fwd)
+    (h : registerBidirectional W cfg req ext m a = .ok c f)
+    (v6 : Bool) (dC dR : Derived) (src : IPKind) (hC : dC ≠ .fail)
+    (hR : stationUsesRespParams req.disable f.resp = true → dR ≠ .fail)
+    (hsrc : src ≠ .invalid) (h4 : v6 = false → src = .v4)
+    (h6 : v6 = true → ∃ x, c.v6 = some x ∧ ipKind x = .v6) :
+    ∃ ph port ps, stationApply v6 req.disable req.params dC dR src f.resp = .ok ph port ps := by
+  refine station_accepts_forwarded cfg req ext m a c f h v6 dC dR src ?_ hsrc h4 h6
+  unfold stationDerived
+  split
+  · rename_i hu; exact hR hu
+  · exact hC
+
 /-- what the wrapper stage makes of a request does not depend on the client's response / signature fields -/
 theorem wrapper_ignores_forged (cfg : Cfg) (req : Req) (cresp : Option Resp) (m : Nat) (a : Option String)
     (fr : Option Resp) (fb fs : String) :
